@@ -49,7 +49,8 @@ def plan(tier, seed):
         P.add("kernel", grid=grid, batch=batch, pts=pts, nd=nd,
               ccls=pick(rng, ["inside", "outside", "ties", "integer", "dup"]),
               kernel=kernel, param=param, width=width,
-              dt=pick(rng, ["complex128", "complex128", "float64", "complex64"]),
+              dt=pick(rng, ["complex128", "complex128", "float64", "complex64", "int64",
+                            "int32"]),
               via=pick(rng, ["func", "func", "linop"]), cseed=int(rng.integers(1 << 30)),
               layout=pick(rng, ["C", "C", "C", "F", "strided"]),
               arrparams=bool(rng.random() < 0.3))
@@ -64,9 +65,14 @@ def run_case(case):
     dt = np.dtype(case["dt"])
     coord = lops.make_coord(case["cseed"], pts, grid, case["ccls"])
     with structured((sum(case["rs"]) // 3) % 10 if sum(case["rs"]) % 2 else 0):
-        x = crandn(rng, batch + grid, dt)
-        y = crandn(rng, batch + pts, dt)
+        x = crandn(rng, batch + grid, dt if dt.kind != "i" else np.float64)
+        y = crandn(rng, batch + pts, dt if dt.kind != "i" else np.float64)
     mag = [1, 1, 1, 1e-10, 1e8][sum(case["rs"]) % 5]      # both functions are homogeneous
+    if dt.kind == "i":
+        # integer samples (counts, label images, raw ADC values): the kernel weights are not
+        # integers - the results are the real-valued kernel sums
+        x, y = np.round(x * 7).astype(dt), np.round(y * 7).astype(dt)
+        mag = 1
     if mag != 1:
         x, y = x * dt.type(mag), y * dt.type(mag)
     layout = case.get("layout", "C")
@@ -260,7 +266,7 @@ def run_case(case):
                                 dict(wit, shift=sh_.tolist()), mech="coord-update", obs=obs)
         coord[...] = c0                       # (exactly; subtracting the shift would round)
         sig += "|coord-update"
-    if sum(case["rs"]) % 5 == 2 and npts and case["via"] == "func":
+    if sum(case["rs"]) % 5 == 2 and npts and case["via"] == "func" and dt.kind != "i":
         # samples outside every kernel support have NO influence: poison them.  Likewise a
         # non-finite k-space sample spoils only the grid points inside its own support
         used = set()
